@@ -49,7 +49,11 @@ def main(tier, seed):
     if standard_build(rep, "C14", need_binary=True):
         n = 40 if tier == "quick" else 1500
         tmp = tempfile.mkdtemp(prefix="c14", dir=BUILD)
-        inputs = ["a", "ab\n", "\n", "\n\n", "x\n\ny", "".join(chr(c) for c in BOUNDARY), "".join(chr(c) + "\n" for c in BOUNDARY), "A" * 3000, "\n" * 50 + "z"]
+        EDGE = BOUNDARY + [0xfeff, 0xfffe, 0x200b, 0x2029, 0xa0, 0x3000, 0x1680]
+        inputs = ["\ufeffabc\n", "ab\n\ufeffcd\n", "\ufeff", "x\n\ufeff",
+                  # every edge character at the beginning and at the end of a line (seeded change C14-bom-stripped-from-input-lines)
+                  "".join(chr(c) + "x\n" for c in EDGE if c != 0xa), "".join("x" + chr(c) + "\n" for c in EDGE if c != 0xa),
+                  "a", "ab\n", "\n", "\n\n", "x\n\ny", "".join(chr(c) for c in BOUNDARY), "".join(chr(c) + "\n" for c in BOUNDARY), "A" * 3000, "\n" * 50 + "z"]
         # long lines with multi-byte characters straddling the usual buffer sizes (seeded change C14-stdin-chunk-8192)
         for B in (4096, 8192, 16384, 65536):
             for off in (1, 2, 3):
